@@ -359,8 +359,8 @@ end
 /-! ### non-vacuity: a concrete disk, history and crash points inside Rollback
 
 `exDisk`: `/b` (base root) with the file `/b/f` = "hello" and the directory `/b/d`, `/k` (backup
-root, empty).  The transaction overwrites `/f` and creates `/n`.  Rollback then issues 16 primitive
-calls: `base.lstat /n`, `base.remove /n`, `backup.open /f`, `backup.fstat /f`, `base.lstat /f`,
+root, empty).  The transaction overwrites `/f` and creates `/n`.  Rollback then issues 17 primitive
+calls: `base.lstat /` (the root is tracked: it has to exist), `base.lstat /n`, `base.remove /n`, `backup.open /f`, `backup.fstat /f`, `base.lstat /f`,
 `base.openfile /f` (truncating), `backup.read /f`, `base.write /f`, `backup.read /f`, `base.close /f`,
 `base.lstat /f` ×2, `base.chtimes /f`, `backup.close /f` | `backup.lstat /f`, `backup.remove /f`. -/
 
@@ -396,28 +396,28 @@ example : OSGood [['b']] [['k']] exDisk ∧
 /-- crash point in the middle of `restoreFile` (after the truncating `OpenFile`, before the write):
 Rollback starts in a world that is not crashed and ends crashed; the base file is *not* the original
 (it is empty) — the second disjunct is the one that holds: the backup still has "hello". -/
-example : crashed (dieAfter exAfterOps 7) = false ∧ crashed (exCrashRollback 7) = true ∧
+example : crashed (dieAfter exAfterOps 8) = false ∧ crashed (exCrashRollback 8) = true ∧
     contentAt exDisk [['b'], ['f']] = some "hello" ∧
-    contentAt (exCrashRollback 7).fs [['b'], ['f']] = some "" ∧
-    contentAt (exCrashRollback 7).fs [['k'], ['f']] = some "hello" ∧
-    (exCrashRollback 7).fs.get [['b'], ['n']] = none := by
+    contentAt (exCrashRollback 8).fs [['b'], ['f']] = some "" ∧
+    contentAt (exCrashRollback 8).fs [['k'], ['f']] = some "hello" ∧
+    (exCrashRollback 8).fs.get [['b'], ['n']] = none := by
   decide +kernel
 
 /-- crash point in the clean-up loops (after `backup.lstat /f`, before `backup.remove /f` … and one
 call later, after it): the base is completely restored — the first disjunct holds — whether or not
 the backup copy is still there. -/
-example : crashed (dieAfter exAfterOps 15) = false ∧ crashed (exCrashRollback 15) = true ∧
-    (exCrashRollback 15).fs.get [['b'], ['f']] = exDisk.get [['b'], ['f']] ∧
-    (exCrashRollback 15).fs.get [['b'], ['n']] = none ∧
-    ((exCrashRollback 15).fs.get [['k'], ['f']]).isSome = true ∧
-    crashed (exCrashRollback 16) = true ∧
+example : crashed (dieAfter exAfterOps 16) = false ∧ crashed (exCrashRollback 16) = true ∧
     (exCrashRollback 16).fs.get [['b'], ['f']] = exDisk.get [['b'], ['f']] ∧
-    (exCrashRollback 16).fs.get [['k'], ['f']] = none := by
+    (exCrashRollback 16).fs.get [['b'], ['n']] = none ∧
+    ((exCrashRollback 16).fs.get [['k'], ['f']]).isSome = true ∧
+    crashed (exCrashRollback 17) = true ∧
+    (exCrashRollback 17).fs.get [['b'], ['f']] = exDisk.get [['b'], ['f']] ∧
+    (exCrashRollback 17).fs.get [['k'], ['f']] = none := by
   decide +kernel
 
 /-- and a crash plan that never fires: Rollback runs to its end, not crashed -/
-example : crashed (exCrashRollback 17) = false ∧
-    (exCrashRollback 17).fs.get [['b'], ['f']] = exDisk.get [['b'], ['f']] := by
+example : crashed (exCrashRollback 18) = false ∧
+    (exCrashRollback 18).fs.get [['b'], ['f']] = exDisk.get [['b'], ['f']] := by
   decide +kernel
 
 /-! ### 3. I/O faults (not crashes) inside Rollback: an original can be lost
